@@ -171,8 +171,10 @@ CHECKS["C13"] = {
             "by Content-Length / chunked / connection close); config: prefix stripping on/off with root and non-root prefixes, header "
             "forwarding on/off, http/https client side, request/response buffering. Oracle: field-by-field and byte-by-byte equality "
             "with the stated licences (hop-by-hop removal, Forwarded removal, framing headers, sniffed Content-Type), each counted. "
-            "Non-trivial = an encoded octet or odd query under stripping, or a client forwarding header. Distinct by plan hash.",
-    "layers": [L("TestVF_C13", 1500, 20000)],
+            "Non-trivial = an encoded octet or odd query under stripping, or a client forwarding header. TestVF_C13_Concurrent: 2-8 clients fetch "
+            "large responses (5-300 kB, each made of its own byte, written in 1-16 flushed parts) from one target at the same time, 1-4 "
+            "rounds; every client must receive exactly its own body. Distinct by plan hash.",
+    "layers": [L("TestVF_C13", 1500, 20000), L("TestVF_C13_Concurrent", 150, 2000)],
     "technique": "property-based testing (rapid): generated raw requests/responses through the real server stack, round-trip equality oracle at the byte level",
     "level_text": "Bounded random exploration over a request/response grammar; the real net/http request parser, ReverseProxy and response writer are in the loop.",
     "level_note": "Domain: RFC 3986 request targets and RFC 9110 field values, prefix spelled literally by the client; go1.26.8 net/http (the project pins 1.24.2).",
